@@ -18,7 +18,10 @@ fn graph_cfgs() -> Vec<Arc<ExchCfg>> {
     let mut out = Vec::new();
     // the length rule must not depend on anything else in the exchange: response / request versions,
     // Connection: close on either side, a Transfer-Encoding header on an HTTP/1.0 response (ignored there)
-    let variants: [(&str, &str, &[(&str, &str)], bool); 6] = [
+    let variants: [(&str, &str, &[(&str, &str)], bool); 8] = [
+        // a Transfer-Encoding list without any chunked element (empty element / prefix of the word) does not make it chunked
+        ("1.1", "1.1", &[("Transfer-Encoding", "gzip,")], false),
+        ("1.1", "1.1", &[("Transfer-Encoding", "chunk")], false),
         ("1.1", "1.1", &[], false),
         ("1.0", "1.1", &[], false),
         ("1.1", "1.1", &[("Connection", "close")], false),
@@ -33,7 +36,9 @@ fn graph_cfgs() -> Vec<Arc<ExchCfg>> {
             }
             let mut fields: Vec<(String, Vec<u8>)> = extra.iter().map(|(k, v)| (k.to_string(), v.as_bytes().to_vec())).collect();
             fields.push(("Content-Length".into(), n.to_string().into_bytes()));
-            let msg = RespMsg { version: ver.into(), status: 200, reason: "OK".into(), fields, body: if n > 0 { RespBody::Raw(pattern(n)) } else { RespBody::None } };
+            // statuses that carry a body like any other (205 and 203 are not special for framing)
+            let status = [200u16, 205, 203, 404, 500][n % 5];
+            let msg = RespMsg { version: ver.into(), status, reason: "OK".into(), fields, body: if n > 0 { RespBody::Raw(pattern(n)) } else { RespBody::None } };
             let mut menu = Menu::default_large();
             menu.arrive = vec![1];
             menu.read_bufs = (0..=n + 2).collect();
@@ -54,7 +59,7 @@ fn graph_cfgs() -> Vec<Arc<ExchCfg>> {
     for ver in ["1.1", "1.0", "1.0-te"] {
         // close-delimited (also: HTTP/1.0 response whose Transfer-Encoding: chunked does not count)
         for len in 0..=6usize {
-            for status in [200u16, 404] {
+            for status in [200u16, 404, 205] {
                 let (ver, fields): (&str, Vec<(String, Vec<u8>)>) = if ver == "1.0-te" { ("1.0", vec![("Transfer-Encoding".into(), b"chunked".to_vec())]) } else { (ver, vec![]) };
                 let msg = RespMsg { version: ver.into(), status, reason: "OK".into(), fields, body: RespBody::Raw(pattern(len)) };
                 let mut menu = Menu::default_large();
@@ -157,7 +162,6 @@ fn sweep_n(n: u64, rep: &mut Report) {
 }
 
 pub fn run(tier: Tier) -> Report {
-    crate::engine::WD_LIMIT_S.store(120, std::sync::atomic::Ordering::Relaxed);
     let lim = Limits { max_states: 1_000_000, keep_final_traces: 3, keep_state_traces: 3, check_coreach: true, probe_every: 8, ..Default::default() };
     let mut rep = run_exchanges(graph_cfgs(), &lim, true, |c| c.to_json());
     let step = if tier.thorough() { 1 } else { 1 };
